@@ -236,4 +236,28 @@ theorem C19_unusable_bdat_line_counted_on (fuel : Nat) (line after arg a0 : Byte
   conv => lhs; unfold cutAtBdat
   simp only [hend, List.take_left', List.drop_left', hcmd, beq_self_eq_true, if_true, hf, hs]
 
+/-- **C19_nothing_skipped_behind_mode_change.**  Behind a buffered DATA, AUTH or STARTTLS line the lines that follow may be a message
+    body or answers to challenges, not commands: whatever they look like, nothing behind such a line is skipped — everything
+    that is buffered is counted.  (Before: a body line `BDAT 150` announced 150 octets that were never counted, and an over-long
+    command line behind them was executed.) -/
+theorem C19_nothing_skipped_behind_mode_change (fuel : Nat) (line after cmd arg : Bytes)
+    (hend : lfEnd (line ++ after) = some line.length) (hcmd : Parse.parseCmd line = some (cmd, arg))
+    (hmode : cmd = "DATA".b ∨ cmd = "AUTH".b ∨ cmd = "STARTTLS".b) :
+    cutAtBdat (fuel + 1) (line ++ after) = line ++ after := by
+  conv => lhs; unfold cutAtBdat
+  have e1 : ("DATA".b == "BDAT".b) = false := by decide +kernel
+  have e2 : ("AUTH".b == "BDAT".b) = false := by decide +kernel
+  have e3 : ("STARTTLS".b == "BDAT".b) = false := by decide +kernel
+  rcases hmode with rfl | rfl | rfl
+  · simp only [hend, List.take_left', List.drop_left', hcmd, e1, Bool.false_eq_true, if_false, beq_self_eq_true, Bool.true_or, if_true]
+  · simp only [hend, List.take_left', List.drop_left', hcmd, e2, Bool.false_eq_true, if_false, beq_self_eq_true, Bool.true_or, Bool.or_true, if_true]
+  · simp only [hend, List.take_left', List.drop_left', hcmd, e3, Bool.false_eq_true, if_false, beq_self_eq_true, Bool.or_true, if_true]
+
+/-- the reviewer's conversation: `AUTH PLAIN`, then an answer that looks like `BDAT 150`, then an over-long line — all counted -/
+example : cutAtBdat 100 ("AUTH PLAIN\r\nBDAT 5\r\nNOOP xxxxxxxxxxxx\r\n".b) = "AUTH PLAIN\r\nBDAT 5\r\nNOOP xxxxxxxxxxxx\r\n".b := by
+  decide +kernel
+/-- without the mode change the five octets are skipped -/
+example : cutAtBdat 100 ("NOOP\r\nBDAT 5\r\nNOOP xxxxxxxxxxxx\r\n".b) = "NOOP\r\nBDAT 5\r\nxxxxxxxxxxxx\r\n".b := by
+  decide +kernel
+
 end SmtpV.Props.C19
